@@ -666,6 +666,10 @@ fn run_writer(id: &'static str, tier: Tier, seed: u64, ctx: &Ctx, sh: u32) -> Ev
         }
     }
     if id == "C19" {
+        // a connected UDP socket whose peer was gone for a moment (pending socket error)
+        if !driver::run_random(&sockets::ConnectedUdpGreedy, &ev, ctx, scale(tier.pick(100, 2_000)), 2) {
+            return ev;
+        }
         // greedy packing must also hold when several threads share the sink (no explicit flushes)
         let sc = crate::stress::StressCampaign {
             name: "stress-greedy",
@@ -760,6 +764,7 @@ pub fn replay(id: &'static str, campaign: &str, case: &serde_json::Value, tier: 
     try_camp!(ConcCampaign { name: "queue-sampler-panic", focus: QRule::Panic });
     try_camp!(crate::queue::concurrent::LastSlotRace);
     try_camp!(crate::queue::concurrent::DropRace);
+    try_camp!(sockets::ConnectedUdpGreedy);
     try_camp!(crate::queue::concurrent::HandlerChain);
     try_camp!(crate::queue::concurrent::FirstEmitRace { name: "queue-first-emit-race", focus: QRule::Deliver });
     try_camp!(crate::queue::concurrent::FirstEmitRace { name: "queue-first-emit-race-shutdown", focus: QRule::Shutdown });
